@@ -15,6 +15,7 @@ import shutil
 import subprocess
 import sys
 import tempfile
+import warnings
 from typing import Any, Dict, List, Optional
 
 HERE = os.path.dirname(os.path.dirname(os.path.abspath(__file__)))
@@ -62,7 +63,9 @@ def apply_edits(scratch: str, variant: Dict[str, Any]) -> Optional[str]:
         staged[path] = text
     for path, text in staged.items():
         try:
-            compile(text, path, "exec")
+            with warnings.catch_warnings():
+                warnings.simplefilter("ignore")
+                compile(text, path, "exec")
         except SyntaxError as ex:
             return "variant does not compile: %s" % ex
         with open(path, "w") as f:
